@@ -271,6 +271,12 @@ func crashHistories(depth int) []crashHistory {
 
 // runDiskCycles: clean close/reopen cycles on real on-disk directories (real leveldb cache and keystore).
 func runDiskCycles(kind string, cycles int, remote bool) (string, []explore.Violation) {
+	return runDiskCyclesOpts(kind, cycles, remote, false)
+}
+
+// runDiskCyclesOpts: with shared, the process holds a second database and opens both with ONE options value
+// after every restart; both must recover their own acknowledged entries.
+func runDiskCyclesOpts(kind string, cycles int, remote, shared bool) (string, []explore.Violation) {
 	dir, err := os.MkdirTemp("", "verif-c05-")
 	if err != nil {
 		return "harness: " + err.Error(), nil
@@ -304,9 +310,27 @@ func runDiskCycles(kind string, cycles int, remote bool) (string, []explore.Viol
 	if err != nil {
 		return "harness: " + err.Error(), nil
 	}
+	var s2 iface.Store
+	addr2 := ""
+	acked2 := map[string]bool{}
+	if shared {
+		ac2 := accesscontroller.NewEmptyManifestParams()
+		ac2.SetAccess("write", []string{identity})
+		if s2, err = db.Create(bg, "other", kind, &orbitdb.CreateDBOptions{AccessController: ac2, Replicate: boolp(false)}); err != nil {
+			return "harness: " + err.Error(), nil
+		}
+		addr2 = s2.Address().String()
+	}
 	var vs []explore.Violation
 	acked := map[string]bool{}
 	for c := 0; c < cycles; c++ {
+		if shared {
+			if err := writeAny(s2, fmt.Sprintf("o%d", c)); err != nil {
+				vs = append(vs, explore.Violation{Signature: "disk-write-failed", Detail: "second database: " + err.Error()})
+			} else {
+				acked2[s2.OpLog().Heads().Slice()[0].GetHash().String()] = true
+			}
+		}
 		if err := writeAny(s, fmt.Sprintf("r%d", c)); err != nil {
 			vs = append(vs, explore.Violation{Signature: "disk-write-failed", Detail: err.Error()})
 		} else {
@@ -332,13 +356,32 @@ func runDiskCycles(kind string, cycles int, remote bool) (string, []explore.Viol
 		if db.Identity().ID != identity {
 			vs = append(vs, explore.Violation{Signature: "identity-changed-across-restart", Detail: fmt.Sprintf("cycle %d", c)})
 		}
-		if s, err = db.Open(bg, addr, &orbitdb.CreateDBOptions{Replicate: boolp(false)}); err != nil {
+		oneOpts := &orbitdb.CreateDBOptions{Replicate: boolp(false)}
+		if s, err = db.Open(bg, addr, oneOpts); err != nil {
 			return "reopen failed", append(vs, explore.Violation{Signature: "disk-open-failed", Detail: err.Error()})
 		}
 		if err := s.Load(bg, -1); err != nil {
 			vs = append(vs, explore.Violation{Signature: "disk-load-failed", Detail: err.Error()})
 		}
 		_ = sim.Quiesce()
+		if shared {
+			before2 := viewAny(s2)
+			if s2, err = db.Open(bg, addr2, oneOpts); err != nil {
+				return "reopen failed", append(vs, explore.Violation{Signature: "disk-open-failed", Detail: "second database: " + err.Error()})
+			}
+			if err := s2.Load(bg, -1); err != nil {
+				vs = append(vs, explore.Violation{Signature: "disk-load-failed", Detail: "second database: " + err.Error()})
+			}
+			_ = sim.Quiesce()
+			for h := range acked2 {
+				if _, ok := s2.OpLog().Get(mustCid(h)); !ok {
+					vs = append(vs, explore.Violation{Signature: "acknowledged-entry-lost-after-clean-restart", Detail: fmt.Sprintf("cycle %d, second database opened with the same options value: %s", c, short4(h))})
+				}
+			}
+			if after2 := viewAny(s2); after2 != before2 {
+				vs = append(vs, explore.Violation{Signature: "state-differs-after-clean-restart", Detail: fmt.Sprintf("cycle %d, second database: %q -> %q", c, before2, after2)})
+			}
+		}
 		for h := range acked {
 			found := false
 			for _, e := range s.OpLog().GetEntries().Slice() {
@@ -387,6 +430,8 @@ func init() {
 							k, cyc, remote := k, cyc, remote
 							cases = append(cases, explore.Case{ID: fmt.Sprintf("disk %s cycles=%d remote=%v", k, cyc, remote), Nontrivial: remote,
 								Run: func() (string, []explore.Violation) { return runDiskCycles(k, cyc, remote) }})
+							cases = append(cases, explore.Case{ID: fmt.Sprintf("disk %s cycles=%d remote=%v two databases opened with one options value", k, cyc, remote), Nontrivial: true,
+								Run: func() (string, []explore.Violation) { return runDiskCyclesOpts(k, cyc, remote, true) }})
 						}
 					}
 				}
